@@ -126,3 +126,70 @@ func c13FixedChildLevels(p *Prog) *RuleResult {
 	r.Floor(len(keys))
 	return r
 }
+
+// ---------------------------------------------------------------------------------------------
+// C13/R13 (= C03/R13) else-presence-as-printed.
+//
+// With minify-syntax the printer removes an `else` branch whose only statement is an expression that
+// simplifies to nothing at print time (a call of a known empty function). Whether an inner `if` has
+// an `else` decides whether the outer `if` must wrap it in braces (the dangling-else ambiguity). A
+// function of the printer that tests `SIf.NoOrNil.Data == nil` to make such a decision must look at
+// the branch as it will be printed, i.e. also consult simplifyUnusedExpr — as printIf itself does.
+func elsePresenceAsPrinted(p *Prog, rule string) *RuleResult {
+	r := NewRule(rule, "every function of the JS printer that tests whether an if statement has an else branch also accounts for the branch being removed at print time (simplifyUnusedExpr)")
+	n := 0
+	for _, fn := range p.ModuleFuncs() {
+		if pkgPathOf(fn) != modPath+"/internal/js_printer" {
+			continue
+		}
+		tests := false
+		var pos ssa.Instruction
+		eachInstr(fn, func(b *ssa.BasicBlock, in ssa.Instruction) {
+			bo, ok := in.(*ssa.BinOp)
+			if !ok {
+				return
+			}
+			if c, isC := bo.Y.(*ssa.Const); !isC || c.Value != nil {
+				return
+			}
+			// bo.X: load of <SIf>.NoOrNil.Data
+			ld, ok := bo.X.(*ssa.UnOp)
+			if !ok {
+				return
+			}
+			fa, ok := ld.X.(*ssa.FieldAddr)
+			if !ok || fieldAddrName(fa) != "Data" {
+				return
+			}
+			fa2, ok := fa.X.(*ssa.FieldAddr)
+			if ok && fieldAddrName(fa2) == "NoOrNil" && namedTypeName(fa2.X.Type()) == "js_ast.SIf" {
+				tests = true
+				pos = bo
+			}
+		})
+		if !tests {
+			continue
+		}
+		n++
+		r.Instances++
+		key := FuncName(fn) + " tests for the presence of an else branch"
+		consults := false
+		for _, f := range withClosures(fn) {
+			eachInstr(f, func(b *ssa.BasicBlock, in ssa.Instruction) {
+				if c, ok := in.(*ssa.Call); ok && strings.HasSuffix(calleeFullName(c), "js_printer.printer).simplifyUnusedExpr") {
+					consults = true
+				}
+			})
+		}
+		if consults {
+			r.OK(key, true, "the function also consults simplifyUnusedExpr")
+		} else {
+			r.Fail(key, p.Pos(pos.Pos()), "the decision is taken on the AST's else branch, but printIf removes an else branch that simplifies to nothing at print time (`else empty();`): the inner `if` is then printed without its `else`, the outer one was not wrapped in braces, and the outer `else` attaches to the inner `if`")
+		}
+	}
+	if !r.Anchor("functions of the printer that test SIf.NoOrNil.Data against nil", n >= 1) {
+		return r
+	}
+	r.Floor(1)
+	return r
+}
